@@ -51,6 +51,13 @@ def is_nameplate_key(sc, t, before):
 
 def run(ctx):
     model = ctx.model
+    from .. import roles as _rm3
+    shared.r_nocfg(ctx, "R07.nocfg", _rm3.get(model).release_op,
+                   "a released nameplate stays listed (or a claim stays) under the other setting")
+    from .. import roles as _rm2
+    shared.r_ident(ctx, "R07.ident", (_rm2.get(model).claim_op, _rm2.get(model).release_op),
+                   "the name that is stored differs from the name a later release / claim uses")
+    shared.r_wire(ctx, "R07.wire")
     from .. import roles as _rolesmod
     shared.r_callers(ctx, "R07.callers", _rolesmod.get(model).release_op, ("release",),
                      "a claim is ended although its side sent no release")
